@@ -69,23 +69,18 @@ Qed.
 
 (* ---- one-byte RS ---- *)
 
-Definition rs_full_statement : Prop := forall rs, (length rs <= 1)%nat -> set_rs_short rs <> RsPanic.
-
-Theorem rs_one_byte_refuted : ~ rs_full_statement.
-Proof. intros H. apply (H [255] ltac:(cbn; lia)). reflexivity. Qed.
-
-Theorem rs_one_byte_partial : forall rs, (length rs <= 1)%nat ->
-  (forall b, In b rs -> 0 <= b < 128) -> set_rs_short rs = RsOk.
+(* no empty or one-byte record separator makes setSpecial panic *)
+Theorem rs_one_byte_never_panics : forall rs, (length rs <= 1)%nat -> set_rs_short rs = RsOk.
 Proof.
-  intros rs Hl Hb. destruct rs as [|b [|c rs]]; cbn [length] in Hl; [reflexivity| |lia].
-  cbn [set_rs_short]. specialize (Hb b (or_introl eq_refl)).
-  destruct ((0 <=? b) && (b <? 128)) eqn:E; [reflexivity|].
-  apply andb_false_iff in E as [E|E]; lia.
+  intros rs Hl. destruct rs as [|b [|c rs]]; cbn [length] in Hl; [reflexivity| |lia].
+  unfold set_rs_short, must_compile_quoted. destruct (valid_utf8_short [b]); reflexivity.
 Qed.
 
-Theorem rs_one_byte_exact : forall b, set_rs_short [b] = RsPanic <-> ~ (0 <= b < 128).
+(* the validity test is what prevents it: the compilation alone panics exactly on non-ASCII bytes *)
+Theorem must_compile_quoted_exact : forall b, must_compile_quoted [b] = RsPanic <-> ~ (0 <= b < 128).
 Proof.
-  intros b. cbn [set_rs_short]. destruct ((0 <=? b) && (b <? 128)) eqn:E; split; intros H; try discriminate.
+  intros b. unfold must_compile_quoted. cbn [valid_utf8_short].
+  destruct ((0 <=? b) && (b <? 128)) eqn:E; split; intros H; try discriminate.
   - apply andb_true_iff in E as [E1 E2]. lia.
   - apply andb_false_iff in E as [E|E]; lia.
   - reflexivity.
